@@ -153,7 +153,7 @@ class Extractor:
     def parse_block(self, block):
         """parse the directive block of an EXTRACT."""
         d = dict(ret=None, safety=None, spec=None, loops={}, loopstart={}, loopend={}, inserts=[], substs=[], bodyonly=False,
-                 frm=None, to=None, optional=False, rename=None, pub=False, r4=False, replaces=[], pubfields=False, fnend=None, fnstart=None)
+                 frm=None, to=None, optional=False, rename=None, pub=False, r4=False, replaces=[], pubfields=False, fnend=None, fnstart=None, attr=None)
         i = 0
 
         def grab(endmarks):
@@ -186,6 +186,8 @@ class Extractor:
                 d["optional"] = True
             elif k == "PUB":
                 d["pub"] = True
+            elif k == "ATTR":
+                d["attr"] = block[i].strip()[len("//@ ATTR"):].strip()
             elif k == "R4":
                 d["r4"] = True
             elif k == "PUBFIELDS":
@@ -346,12 +348,39 @@ class Extractor:
                 pieces.append(Piece(s0, s1, "pub", "subst", old=orig[s0:s1], rule="R1"))
                 bump("R1")
 
+        if d["attr"]:
+            pieces.append(Piece(0, 0, d["attr"] + "\n", "ins"))
+            bump("R8")
         if d["pub"] and toks[a].text != "pub":
             pieces.append(Piece(0, 0, "pub ", "ins"))
             bump("R1")
 
         body_lo = it["body_open"]
         body_hi = it["body_close"]
+
+        # tuple struct: `struct X(T, U);`
+        if d["pubfields"] and kind == "struct" and body_lo is None:
+            q = it["kw"] + 2
+            if toks[q].text == "<":
+                while toks[q].text != "(":
+                    q += 1
+            if toks[q].text == "(":
+                pc = src.tbl[q]
+                k2 = q + 1
+                start_field = True
+                while k2 < pc:
+                    t = toks[k2]
+                    if start_field:
+                        if t.text != "pub":
+                            o = t.start - base
+                            pieces.append(Piece(o, o, "pub ", "ins"))
+                            bump("R1")
+                        start_field = False
+                    if t.kind == "punct" and t.text in "([{" and k2 in src.tbl:
+                        k2 = src.tbl[k2]
+                    elif t.kind == "punct" and t.text == ",":
+                        start_field = True
+                    k2 += 1
 
         # R1 (visibility): make every field of a struct `pub` (single-file crate)
         if d["pubfields"] and kind == "struct" and body_lo is not None:
@@ -384,6 +413,8 @@ class Extractor:
             if not want:
                 raise UnitError("empty SUBST pattern")
             hits = find_seq(toks, want, a, b + 1)
+            if not hits and rule in ("R5", "R6", "R9") and allocc:
+                continue  # "replace every occurrence": none present is fine
             if not hits and rule in ("R5", "R6", "R9") and not allocc:
                 # the lifted expression is gone from the code: verify what is there instead (a removed
                 # or rewritten expression must still meet the function's contract; an unsupported
